@@ -31,7 +31,7 @@ Lemma fields_aux_end cur w : cur <> [] -> w <> [] -> blank w -> forall rest,
 Proof.
   intros Hc Hw Hb rest. destruct w as [|c w]; [congruence|]. unfold blank in Hb. cbn [forallb] in Hb.
   apply andb_prop in Hb as [H1 H2]. cbn [app fields_aux]. rewrite H1. destruct cur; [congruence|].
-  rewrite fields_aux_blank by exact H2. reflexivity.
+  rewrite fields_aux_blank by exact H2. rewrite frev_eq. reflexivity.
 Qed.
 (* one field followed by at least one blank *)
 Lemma fields_cons f w rest : solid f -> w <> [] -> blank w -> fields (f ++ w ++ rest) = f :: fields rest.
@@ -44,7 +44,7 @@ Proof.
   intros [Hn Hs] Hb. unfold fields. rewrite fields_aux_solid by auto. rewrite app_nil_r.
   assert (List.rev f <> []) as Hr by (destruct f; [congruence|]; cbn; destruct (List.rev f); discriminate).
   destruct w as [|c w].
-  - cbn [fields_aux]. destruct (List.rev f) eqn:E; [congruence|]. rewrite <- E, rev_involutive. reflexivity.
+  - cbn [fields_aux]. rewrite ?frev_eq. destruct (List.rev f) eqn:E; [congruence|]. rewrite <- E, rev_involutive. reflexivity.
   - rewrite <- (app_nil_r (c :: w)). rewrite fields_aux_end; auto; [|discriminate]. rewrite rev_involutive. reflexivity.
 Qed.
 
@@ -53,7 +53,7 @@ Definition nonblank_bytes (s : str) : Prop := forallb (fun c => negb (is_ascii_w
 Lemma solid_paren name : nonblank_bytes name -> solid (40 :: name ++ [41]).
 Proof. intros H. split; [discriminate|]. cbn [forallb]. unfold nonblank_bytes in H. rewrite forallb_app, H. reflexivity. Qed.
 Lemma unparen_paren name : unparen (40 :: name ++ [41]) = Some name.
-Proof. unfold unparen. rewrite rev_app_distr. cbn. rewrite rev_involutive. reflexivity. Qed.
+Proof. unfold unparen. rewrite frev_eq, rev_app_distr. cbn [List.rev app]. rewrite frev_eq, rev_involutive. reflexivity. Qed.
 Lemma alg_name_solid a : solid (alg_name a).
 Proof. destruct a; split; try discriminate; reflexivity. Qed.
 Lemma alg_parse_bytes_name a : alg_parse_bytes (alg_name a) = Some a.
@@ -644,7 +644,7 @@ Theorem find_entry_spec d p :
   find_entry d p = match List.find (fun q => match get_entry (class_map d p) q with Some _ => true | None => false end)
                                    (walk_paths (List.rev (pcomps p)) []) with
                    | Some q => get_entry (class_map d p) q | None => None end.
-Proof. unfold find_entry, class_map. apply find_walk_spec. Qed.
+Proof. unfold find_entry, class_map. rewrite frev_eq. apply find_walk_spec. Qed.
 
 (* ordinary relative paths dir/.../file: components are the segments, the paths
    tried are the joined suffixes, shortest first *)
